@@ -312,6 +312,70 @@ def job_oil(job):
         job.validate("density_Standing", evalf(pr.value, env, ufs), float(ro.density_Standing(*[env[k] for k in ("T", "p", "api", "gg", "rsi")])), inputs=env)
 
 
+def replay_oil_array(model):
+    """density_Standing on a pressure array listed from high to low, element by element against the library's own scalar
+    R_s and B_o at the same pressure."""
+    import numpy as np
+    from bluebonnet.fluids import oil
+    m = model_floats(model, ["T", "p1", "p2", "api", "gg", "rsi"], default=dict(T=200.0, p1=1500.0, p2=4000.0, api=35.0, gg=0.8, rsi=650.0))
+    lo, hi = sorted((m["p1"], m["p2"]))
+    pb = float(oil.pressure_bubblepoint_Standing(m["T"], m["api"], m["gg"], m["rsi"]))
+    cands = [[hi, lo]]
+    if pb > 60:
+        cands.append([1.3 * pb, 0.6 * pb])          # straddling the real bubble point
+    problems = []
+    for arr in cands:
+        with np.errstate(all="ignore"):
+            rho = np.asarray(oil.density_Standing(m["T"], np.array(arr), m["api"], m["gg"], m["rsi"]), float)
+        for j, p in enumerate(arr):
+            a = (m["T"], float(p), m["api"], m["gg"], m["rsi"])
+            want = 62.37 * 141.5 / (131.5 + m["api"]) + 0.0136 * m["gg"] * float(oil.solution_gor_Standing(*a))
+            got = float(rho[j]) * float(oil.b_o_Standing(*a))
+            if not abs(got - want) <= 1e-9 * abs(want):
+                problems.append(f"pressures {arr}: element {j} (p={p!r}): density*B_o = {got!r} vs stock-tank oil + dissolved gas {want!r}")
+    return bool(problems), {"what": "; ".join(problems[:2]) or "array density consistent with scalar R_s, B_o", "inputs": m}
+
+
+def job_oil_array(job):
+    """The oil identity for the values a caller gets back from an array call: density_Standing on two pressures listed
+    from high to low (a depletion sequence), each element against the library's own scalar R_s and B_o at that pressure."""
+    import bluebonnet.fluids.oil as _ro
+    from ..shims.np_shim import SymArray, Uninit
+    sp = _uf("c_o_Spivey", like=_ro.oil_compressibility_undersat_Spivey)
+    oil = load_sym("bluebonnet.fluids.oil", oil_compressibility_undersat_Spivey=sp)
+    job.encoded(oil, "density_Standing", "solution_gor_Standing", "b_o_Standing")
+    job.stub("oil_compressibility_undersat_Spivey: positive uninterpreted function")
+    vs, dom = box(job, T=(80, 350), p1=("14.7", 20000), p2=("14.7", 20000), api=(12, 55), gg=("0.56", "1.3"), rsi=(20, 2500))
+    dom = dom + [T.b_lt(P(vs["p1"]), P(vs["p2"]))]
+    T_, api, gg, rsi = vs["T"], vs["api"], vs["gg"], vs["rsi"]
+    ps = [vs["p2"], vs["p1"]]
+
+    def run():
+        rho = oil.density_Standing(T_, SymArray(list(ps), "f8"), api, gg, rsi)
+        sc = [(oil.solution_gor_Standing(T_, p, api, gg, rsi), oil.b_o_Standing(T_, p, api, gg, rsi)) for p in ps]
+        return rho, sc
+    res = paths(job, run, dom, max_paths=64)
+    ok = 0
+    for k, pr in enumerate(res):
+        if pr.exc is not None:
+            job.prove(f"oil-array/raises {type(pr.exc).__name__}[path{k}]", pr.pc, bound="oil box", replay=replay_oil_array, note=repr(pr.exc)[:80])
+            continue
+        rho, sc = pr.value
+        if not isinstance(rho, SymArray) or len(rho.d) != 2 or any(isinstance(x, Uninit) for x in rho.d):
+            job.prove(f"oil-array/result is a full length-2 array[path{k}]", pr.pc, bound="oil box", replay=replay_oil_array)
+            continue
+        ok += 1
+        bad = []
+        for j in range(2):
+            want = K("62.37") * K("141.5") / (K("131.5") + api) + K("0.0136") * gg * sc[j][0]
+            bad.append(not_close(rho.d[j] * sc[j][1], want))
+        job.prove(f"oil-array/density*Bo==stock-tank oil+dissolved gas, pressures listed high to low[path{k}]", pr.pc + [T.b_or(*bad)],
+                  bound="oil box, 2 pressures", replay=replay_oil_array)
+        job.prove(f"oil-array/reach[path{k}]", pr.pc, expect="info")
+    if not ok:
+        job.errors.append("oil-array: no path returns an array")
+
+
 def job_water(job):
     water = load_sym("bluebonnet.fluids.water")
     job.encoded(water, "density_water_McCain", "b_water_McCain")
@@ -335,4 +399,4 @@ from .c19 import job_facade_gas, replay_facade  # noqa: E402,F401  (replay_facad
 def jobs(tier):
     return [("gas-density", job_gas_density), ("gas-compressibility", job_gas_compressibility),
             ("gas-viscosity", job_viscosity), ("oil-density", job_oil), ("water-density", job_water),
-            ("gas-through-the-facade", job_facade_gas)]
+            ("gas-through-the-facade", job_facade_gas), ("oil-density-array", job_oil_array)]
